@@ -2,6 +2,7 @@ import Efp.Proofs.Val
 import Efp.Proofs.Prefix
 import Mathlib.Algebra.Order.Field.Basic
 import Mathlib.Tactic.Positivity
+import Mathlib.Tactic.Linarith
 /-!
 # C04 — infrastructure is always sized to cover the computed need
 
@@ -107,6 +108,36 @@ theorem fixed_honoured_or_raises (r : Series) (f : Rat) :
       simp only [hgt, decide_false, Bool.false_eq_true, if_false, true_and]
       intro p hp
       exact le_trans (le_trans (maxVal_ge r m hm p hp) Rat.le_ceil) (not_lt.mp hgt)
+
+theorem ceil_mono (x y : Rat) (h : x ≤ y) : x.ceil ≤ y.ceil := by
+  have h1 : ((x.ceil : Int) : Rat) < x + 1 := Rat.ceil_lt
+  have h2 : y ≤ ((y.ceil : Int) : Rat) := Rat.le_ceil
+  have h3 : ((x.ceil : Int) : Rat) < ((y.ceil : Int) : Rat) + 1 := by linarith
+  have h4 : x.ceil < y.ceil + 1 := by exact_mod_cast h3
+  omega
+
+/-- … and an accepted fixed count covers *whole machines*: it is at least the ceiling of the need at every
+hour, also when the count itself is not a whole number (a count between the peak need and its ceiling is
+refused — seed C04-f compares with the un-rounded peak and accepts it) -/
+theorem accepted_fixed_count_covers_whole_machines (r : Series) (f : Rat)
+    (h : serverNbOfInstances "on-premise" (.h ⟨r, U.dimless⟩) (.q ⟨f, U.dimless⟩)
+        = .ok (.h ⟨Series.constLike r f, U.dimless⟩)) :
+    ∀ p ∈ r, ((p.2.ceil : Int) : Rat) ≤ f := by
+  simp only [serverNbOfInstances, Val.max, bind, Except.bind] at h
+  cases hm : Series.maxVal r with
+  | none => simp [hm] at h
+  | some m =>
+    simp only [hm, Val.ceil, Val.to, Qty.to, Qty.ceil, Qty.gt, pure, Except.pure, U.dimless, if_true, Except.bind,
+      Except.map, bind, Qty.phys, div_one, mul_one] at h
+    by_cases hgt : ((m.ceil : Int) : Rat) > f
+    · simp [hgt] at h
+    · intro p hp
+      have h1 : p.2.ceil ≤ m.ceil := ceil_mono _ _ (maxVal_ge r m hm p hp)
+      have h2 : ((p.2.ceil : Int) : Rat) ≤ ((m.ceil : Int) : Rat) := by exact_mod_cast h1
+      exact le_trans h2 (not_lt.mp hgt)
+
+example : serverNbOfInstances "on-premise" (.h ⟨[(0, 463 / 1000), (3600, 2315 / 1000)], U.dimless⟩) (.q ⟨5 / 2, U.dimless⟩)
+    = .error .fixedInstances := by decide +kernel
 
 /-! ## storage -/
 
